@@ -23,6 +23,7 @@
 #include <string>
 #include <vector>
 #include <map>
+#include <set>
 #include <unistd.h>
 #include <sys/stat.h>
 
@@ -77,6 +78,7 @@ struct Fields {
     std::map<std::string, Mat> dm;
     std::map<std::string, Vec> dv;
     std::map<std::string, SMat> sm;
+    std::set<std::string> unc;      // sparse fields whose copy inside the Model is put into uncompressed mode before saving
 };
 
 struct CoutCapture {
@@ -191,6 +193,7 @@ int main(int argc, char** argv)
         } else if (cmd == "unc") {
             if (!need(t.size() == 2 && F.sm.count(t[1]), "unc field")) continue;
             F.sm[t[1]].uncompress();
+            F.unc.insert(t[1]);
         } else if (cmd == "save") {
             if (!need(t.size() == 2, "save args")) continue;
             bool vecs = F.dv.count("c") && F.dv.count("b") && F.dv.count("h") && F.dv.count("x_lb") && F.dv.count("x_ub");
@@ -204,6 +207,11 @@ int main(int argc, char** argv)
             } else {
                 if (!need(vecs && F.sm.count("P") && F.sm.count("A") && F.sm.count("G"), "save sparse: fields missing")) continue;
                 piqp::sparse::Model<T, I> m(F.sm["P"], F.dv["c"], F.sm["A"], F.dv["b"], F.sm["G"], F.dv["h"], F.dv["x_lb"], F.dv["x_ub"]);
+                // the Model constructor stores compressed copies: put the *model's* matrices into Eigen's uncompressed mode with
+                // free slots in every column (what an in-place edit such as coeffRef on a new entry leaves behind)
+                if (F.unc.count("P")) m.P.reserve(Eigen::Matrix<I, Eigen::Dynamic, 1>::Constant(m.P.cols(), 1));
+                if (F.unc.count("A")) m.A.reserve(Eigen::Matrix<I, Eigen::Dynamic, 1>::Constant(m.A.cols(), 1));
+                if (F.unc.count("G")) m.G.reserve(Eigen::Matrix<I, Eigen::Dynamic, 1>::Constant(m.G.cols(), 1));
                 CoutCapture cap;
                 piqp::save_sparse_model(m, path);
                 std::fprintf(po, "saved sparse\n");
